@@ -25,6 +25,7 @@ ANG = {  # angular scale sets, degrees
     "ang2": [(0.3, 1.1), (0.9, 2.6)],
     "ang3": [(0.3, 1.1), (0.9, 2.6), (2.0, 3.4)],
     "ang4": [(0.3, 0.8), (0.6, 1.7), (1.1, 2.6), (2.0, 3.4)],
+    "ang3rev": [(2.0, 3.4), (0.3, 1.1), (0.9, 2.6)],  # not in ascending order, largest first
 }
 BINNINGS = {
     "B2r": ([0.1, 0.2, 0.4], "right"), "B2l": ([0.1, 0.2, 0.4], "left"),
